@@ -666,7 +666,27 @@ def run(ctx):
                         oracle_fail(c, "dN/dx = %r exceeds the exact integral for piecewise-linear n(E) (%r)"
                                     % (impl["v"], kk * exact), None, {"impl": impl, "exact_energy": exact})
                 else:
-                    ctx.count("dndx-integral-oracle:threshold-inside-grid(not covered by a closed-form theorem)")
+                    # threshold inside the grid (theorems C20_dndx_inside_grid, C20_crossing_segment_le_exact): full trapezoids
+                    # above the crossing segment j (n_j <= 1/beta < n_j+1) + the fraction (1 - t) of segment j's FULL trapezoid,
+                    # t = (1/beta - n_j)/(n_j+1 - n_j); never above the exact integral from the crossing point
+                    ctx.count("dndx-integral-oracle:threshold-inside-grid")
+                    if ib == ns_[-1]:
+                        coded = exact = 0.0
+                    else:
+                        j = max(i for i in range(len(ns_) - 1) if ns_[i] <= ib)
+                        T = lambda i: 0.5 * (es_[i + 1] - es_[i]) * (1 / ns_[i] ** 2 + 1 / ns_[i + 1] ** 2)
+                        t = (ib - ns_[j]) / (ns_[j + 1] - ns_[j])
+                        de = es_[j + 1] - es_[j]
+                        coded = sum((es_[i + 1] - es_[i]) - ib * ib * T(i) for i in range(j + 1, len(es_) - 1)) + (1 - t) * (de - ib * ib * T(j))
+                        exact = (sum((es_[i + 1] - es_[i]) * (1 - ib * ib / (ns_[i] * ns_[i + 1])) for i in range(j + 1, len(es_) - 1))
+                                 + (1 - t) * de * (1 - ib / ns_[j + 1]))
+                    if not close(impl["v"], max(0.0, kk * coded), rtol=1e-9, atol=1e-9 * scale):
+                        oracle_fail(c, "dN/dx = %r is not the value of the crossing-segment formula (%r): trapezoids above the crossing segment "
+                                    "+ (1 - t) of the crossing segment's trapezoid" % (impl["v"], max(0.0, kk * coded)), None,
+                                    {"impl": impl, "coded_energy": coded})
+                    elif impl["v"] > max(0.0, kk * exact) * (1 + 1e-9) + 1e-9 * scale:
+                        oracle_fail(c, "dN/dx = %r exceeds the exact integral from the threshold crossing for piecewise-linear n(E) (%r)"
+                                    % (impl["v"], kk * exact), None, {"impl": impl, "exact_energy": exact})
         elif k in ("ckvgen", "scgen"):
             if impl.get("rejected"):
                 ctx.case(key, False)
